@@ -98,6 +98,9 @@ def run_case(grid, li, quad, extra, shapes2, via):
     def build():
         dims = dsm_impl.make_dims(grid, extra)
         lm = dsm_impl.make_lifetime(dist, dims, base, shapes, extra, inflow_at, n_pts, via)
+        if (len(grid) + n_pts + len(extra)) % 2:  # the outflow table is asked for first
+            p = lm.pdf
+            return lm.sf, p
         return lm.sf, lm.pdf
 
     st, got = attempt(build)
